@@ -8,7 +8,8 @@
     validateSqueeze   cubed/core/ops.py : squeeze                 (`any(x.shape[i] != 1 ...)`, then validate_axis)
     validateRepeat    cubed/array_api/manipulation_functions.py : repeat
     validateConcat    … : concat          (non-empty, validate_axis, shapes, chunk sizes along the axis)
-    validateStack     … : stack           (non-empty, validate_axis — nothing else: the two TODOs)
+    validateStack     … : stack           (non-empty, equal shapes, validate_axis; stackUnify = the rechunk of the others
+                      to the first's chunks; validateStackOld = before fix f3856f5: the two TODOs)
     validateRegion    cubed/core/ops.py : _store_array (shape test of the whole-array branch; region branch: unit steps,
                       slice.indices normalisation, alignment, region shape, rechunk of the source to the target chunks);
                       validateRegionOld = the code before the fix: commits d416aac / ba97b91
@@ -18,8 +19,8 @@
     mapBlocksExpr / validateMapBlocks   cubed/core/ops.py : _map_blocks + blockwise("Unknown dimension")
                                         + make_blockwise_back_key_function (via `Cubed.Bw.keyFn`)
     validateIndex     cubed/core/indexing.py : index (supported index kinds; ndindex bounds)
-    scanBuild         cubed/core/ops.py : scan  — the recursion on `reduced` and the bare
-                      `assert increment.shape[axis] == scanned.numblocks[axis]`
+    scanBuild         cubed/core/ops.py : scan  — the recursion on `reduced` (declared with `reducedSizes`) and the bare
+                      `assert increment.shape[axis] == scanned.numblocks[axis]`; scanBuildOld = before fix 5fff6ae
 
   key functions (what a task addresses):
     prKeys            partial_reduce.back_key_function           range(bi*k, min((bi+1)*k, nb))
@@ -245,13 +246,32 @@ def concatKeys (sizes csizes : List Nat) (C bi : Nat) : Option (List (Nat × Nat
 
 /-! ## stack -/
 
-def validateStack (arrs : List Arr) (axis : Int) : Res :=
+/-- OLD `stack` (before `fix:` f3856f5): non-empty, validate_axis — nothing else (the two TODOs). -/
+def validateStackOld (arrs : List Arr) (axis : Int) : Res :=
   match arrs with
   | [] => .error .ValueError
   | a0 :: _ =>
     match validateAxis axis (a0.ndim + 1) with
     | .error e => .error e
     | .ok _ => .ok ()
+
+/-- `stack` now: non-empty, all inputs of the first's shape (ValueError), then validate_axis. -/
+def validateStack (arrs : List Arr) (axis : Int) : Res :=
+  match arrs with
+  | [] => .error .ValueError
+  | a0 :: _ =>
+    if arrs.any (fun x => x.shape != a0.shape) then .error .ValueError else
+    match validateAxis axis (a0.ndim + 1) with
+    | .error e => .error e
+    | .ok _ => .ok ()
+
+def Arr.size (a : Arr) : Nat := a.shape.foldl (· * ·) 1
+
+/-- the inputs after `x if x.chunks == a.chunks else rechunk(x, a.chunksize)`: `rechunk` leaves a zero-size array
+unchanged (`_rechunk_plan` returns early), every other input gets the first's chunk size. -/
+def stackUnify : List Arr → List Arr
+  | [] => []
+  | a0 :: rest => a0 :: rest.map (fun x => if x.size = 0 then x else { x with chunksize := a0.chunksize })
 
 /-- `stack.back_key_function`: which array, which block coordinates. -/
 def stackKey (axis : Nat) (out : List Nat) : Option (Nat × List Nat) :=
@@ -376,6 +396,7 @@ structure QrP where
   reduced : Bool       -- mode == "reduced"
   floating : Bool      -- dtype in _floating_dtypes
   colBlocks : Nat      -- x.numblocks[1]
+  shortRow : Bool      -- some row chunk has fewer rows than there are columns (`_qr_first_step`, fix 19968d0)
 deriving Repr
 
 def validateQr (p : QrP) : Res :=
@@ -383,6 +404,7 @@ def validateQr (p : QrP) : Res :=
   else if !p.reduced then .error .ValueError
   else if !p.floating then .error .TypeError
   else if p.colBlocks > 1 then .error .ValueError
+  else if p.shortRow then .error .ValueError
   else .ok ()
 
 /-! ## reductions -/
@@ -600,24 +622,42 @@ def validateIndex (shape : List Nat) (key : List Ix) : Res :=
 
 /-! ## scan -/
 
-/-- Result of building `scan` along the axis for an array with `nb` blocks there and axis length `len`:
-`none` = the bare `assert increment.shape[axis] == scanned.numblocks[axis]` fails (here or in the recursive
-call on `reduced`), `some len'` = accepted, result has axis length `len'`.  `s` = `split_every`. -/
-def scanBuild (s : Nat) : Nat → Nat → Nat → Option Nat
+/-- OLD `scan` (before `fix:` 5fff6ae).  Result of building along the axis for an array with `nb` blocks there and
+axis length `len`: `none` = the bare `assert increment.shape[axis] == scanned.numblocks[axis]` fails (here or in the
+recursive call on `reduced`), `some len'` = accepted, result has axis length `len'`.  `s` = `split_every`.
+`reduced` was declared with `ceil(nb / split_size)` chunks of `split_size` each. -/
+def scanBuildOld (s : Nat) : Nat → Nat → Nat → Option Nat
   | 0, len, nb => if nb = 1 then some len else none
   | fuel + 1, len, nb =>
     if nb = 1 then some len else
     let ss := min s nb                         -- split_size
     let rnb := (nb + ss - 1) / ss              -- reduced.numblocks[axis] = ceil(nb / split_size)
     let rlen := ss * rnb                       -- reduced.shape[axis]     = combine_sizes * that
-    match scanBuild s fuel rlen rnb with
+    match scanBuildOld s fuel rlen rnb with
     | none => none
     | some incLen => if incLen = nb then some len else none
 
-/-- closed form of acceptance. -/
+/-- closed form of acceptance of the old variant. -/
 def scanOk (s : Nat) : Nat → Nat → Bool
   | 0, nb => nb ≤ 1
   | fuel + 1, nb => nb ≤ s || (nb % s == 0 && scanOk s fuel (nb / s))
+
+/-- `reduced_sizes = (split_size,) * num_full + ((num_rest,) if num_rest else ())` with
+`num_full, num_rest = divmod(nb, split_size)`. -/
+def reducedSizes (ss nb : Nat) : List Nat :=
+  List.replicate (nb / ss) ss ++ (if nb % ss = 0 then [] else [nb % ss])
+
+/-- `scan` now: `reduced` is declared with the real per-group sizes, the recursion runs on its block count, and the
+assertion compares the increment's length with `nb`.  `none` = AssertionError. -/
+def scanBuild (s : Nat) : Nat → Nat → Nat → Option Nat
+  | 0, len, nb => if nb = 1 then some len else none
+  | fuel + 1, len, nb =>
+    if nb = 1 then some len else
+    let ss := min s nb
+    let sizes := reducedSizes ss nb
+    match scanBuild s fuel sizes.sum sizes.length with
+    | none => none
+    | some incLen => if incLen = nb then some len else none
 
 /-- `scan.back_key_function`: block of `increment` read by out block `bi`; `_scan_binop`: slot inside it. -/
 def scanIncKey (s bi : Nat) : Nat := bi / s
@@ -677,7 +717,7 @@ def classification : List ((String × String × String) × Class) := [
   (("cubed/core/ops.py", "_partial_reduce", "result.keys() == reduced_chunk.keys()"),
     .internalInvariant "both dicts are results of the same reduce_func (fixed field set per reduction: mean n/total, var n/mu/M2, arg i/v)"),
   (("cubed/core/ops.py", "scan", "increment.shape[axis] == scanned.numblocks[axis]"),
-    .reachable "scan-ragged-groups"),
+    .unreachableProved "C17_scan_assert_unreachable"),
   (("cubed/core/ops.py", "scan", "isinstance(out, Array)"),
     .internalInvariant "general_blockwise with one target store returns a single Array"),
   (("cubed/core/optimization.py", "predecessor_ops", "len(pre_list) == 1"),
@@ -722,7 +762,7 @@ def classify (a : String × String × String) : Option Class :=
   (classification.find? (fun q => q.1 == a)).map (·.2)
 
 /-- findings that may be `reachable`. -/
-def listedFindings : List String := ["scan-ragged-groups"]
+def listedFindings : List String := []
 
 def recordOk (a : String × String × String) : Bool :=
   match classify a with
